@@ -313,10 +313,34 @@ def seq_items(kind, items):
             return 0 if kind != 'list' else NONE
         if n == 0:
             return 0 if kind != 'list' else NONE
-        # symbolic index into a literal: If-chain
+        # symbolic index into a literal: If-chain (over the positions the path condition allows, when an oracle is set)
         if kind == 'list':
-            r = items[n - 1]
-            for k in range(n - 2, -1, -1):
+            idxs = list(range(n))
+            if _ORACLE['decide'] is not None and n > 4:
+                # narrow to the interval of positions the path condition allows (binary search: O(log n) solver calls)
+                dec = _ORACLE['decide']
+                lo, hi = 0, n - 1
+                a, b = 0, n - 1
+                while a < b:                      # smallest k with (i <= k) feasible
+                    mid = (a + b) // 2
+                    if dec(I(i) <= mid) is False:
+                        a = mid + 1
+                    else:
+                        b = mid
+                lo = a
+                a, b = lo, n - 1
+                while a < b:                      # largest k with (i >= k) feasible
+                    mid = (a + b + 1) // 2
+                    if dec(I(i) >= mid) is False:
+                        b = mid - 1
+                    else:
+                        a = mid
+                hi = a
+                idxs = list(range(lo, hi + 1))
+                if not idxs:
+                    return NONE
+            r = items[idxs[-1]]
+            for k in reversed(idxs[:-1]):
                 r = merge_values(I(i) == k, items[k], r)
             return r
         r = items[n - 1]
